@@ -295,9 +295,16 @@ mod raw {
             let write_stdin = stdin.map(|mut stdin| {
                 let input_data = input_data.expect("must provide input to redirected stdin");
                 helper_set |= StreamIdent::In as u8;
-                move |tx: SyncSender<_>| match stdin.write_all(&input_data) {
-                    Ok(()) => drop(tx.send((StreamIdent::In, Payload::EOF))),
-                    Err(e) => drop(tx.send((StreamIdent::In, Payload::Err(e)))),
+                move |tx: SyncSender<_>| {
+                    let result = stdin.write_all(&input_data);
+                    // Close stdin before announcing the result: the send
+                    // completes only when a read() takes the message, and the
+                    // subprocess must not wait that long for end-of-file.
+                    drop(stdin);
+                    match result {
+                        Ok(()) => drop(tx.send((StreamIdent::In, Payload::EOF))),
+                        Err(e) => drop(tx.send((StreamIdent::In, Payload::Err(e)))),
+                    }
                 }
             });
 
